@@ -48,13 +48,14 @@ def _cron(sid: int, rng: random.Random) -> Dict[str, Any]:
         mins = list(range(rng.randint(0, 1), 60, 2))
     else:
         mins = sorted(rng.sample(range(0, 8), rng.randint(1, 4)))
-    return {"sid": sid, "kind": "cron", "mins": mins, "cancel": rng.random() < 0.08}
+    return {"sid": sid, "kind": "cron", "mins": mins, "cancel": rng.random() < 0.08, "lblsid": rng.random() < 0.15}
 
 
 def _once(sid: int, rng: random.Random, start: int, horizon: int) -> Dict[str, Any]:
     b = rng.randint(0, horizon // MIN) * MIN
     off = rng.choice([0, 1, 100, 500, 999, 1000, 1001, 1500, 30000, 59000, 59900, -1, -100, -500, -1000, rng.randint(0, 59999)])
-    return {"sid": sid, "kind": "once", "T": max(-120000, b + off), "cancel": rng.random() < 0.06, "naive": rng.random() < 0.5}
+    return {"sid": sid, "kind": "once", "T": max(-120000, b + off), "cancel": rng.random() < 0.06, "naive": rng.random() < 0.5,
+            "lblsid": rng.random() < 0.15}
 
 
 STARTS = [0, 1, 3, 250, 500, 700, 999, 1000, 1500, 30000, 59000, 59400, 59999]
